@@ -528,3 +528,218 @@ Check names_no_hash_table. Check names_layout. Check names_header. Check names_l
 Check names_type_unit_split. Check names_abbrevs. Check names_entry. Check names_entry_series. Check index_find_zero_none. Check insert_reaches_every_load. Check names_type_unit_count. Check djb_hash.
 Check aranges_padding. Check aranges_header. Check aranges_entries. Check aranges_no_panic.
 Check pubstuff. Check pubstuff_no_panic.
+
+(* ================================================================== section plumbing: the glue of src/read/dwarf.rs
+   Model/UnitGlue.v (Unit::new_with_abbreviations, attr_string, attr_address, make_dwo, copy_relocated_attributes, ...)
+   tied to gimli by the stream c17.unitglue; Spec/UnitGlueSpec.v says what the root DIE denotes. *)
+Require Import GV.Spec.FormSpec GV.Model.Attr GV.Spec.Forest GV.Model.AbbrevRd GV.Model.DieRd GV.Spec.ListSpec.
+Require Import GV.Spec.UnitGlueSpec GV.Model.UnitGlue GV.Proofs.UnitGlueProofs.
+Require GV.Model.ListsRd GV.Proofs.ListsRdProofs GV.Proofs.NavProofs.
+
+(* unit_fields_of_root: for EVERY attribute list of the root entry — any order, duplicates, any forms, any names —
+   the loop of Unit::new_with_abbreviations ends with exactly the choice of the specification: name / comp_dir /
+   low_pc = the LAST attribute of that name (whatever its class); stmt_list and each base = the LAST attribute with
+   a designated name whose value has the right class (an attribute of the right name and wrong class changes
+   nothing), else the implicit base of the file type; dwo id = the header's for DWARF 5 skeleton / split units,
+   else the FIRST constant DW_AT_GNU_dwo_id. *)
+Theorem unit_fields_of_root : forall (d : dwarf) (h : unit_header) (attrs : list rattr),
+  fold_left scan_step attrs (scan_init d h) = scan_spec d h attrs.
+Proof. exact scan_is_choice. Qed.
+
+(* unit_new_fields: every field of the Unit returned by Unit::new_with_abbreviations. Name, comp_dir and low_pc are
+   attr_string / attr_address of the chosen attribute evaluated on the FINISHED unit: an indexed form sees the
+   str_offsets_base / addr_base of the unit wherever in the attribute list the base was given (no order
+   dependence); a name that does not resolve is None, an address form that is neither Addr nor an index is 0; the
+   line program is the one at the chosen offset, parsed with the unit's address size, comp_dir and name. *)
+Theorem unit_new_fields : forall dbg d h tbl root u,
+  unit_of_root dbg d h tbl root = Ok u ->
+  let sp := scan_spec d h (d_attrs root) in
+  un_header u = h /\ un_abbrevs u = tbl /\
+  un_str_offsets_base u = sc_sob sp /\ un_addr_base u = sc_ab sp /\
+  un_loclists_base u = sc_llb sp /\ un_rnglists_base u = sc_rlb sp /\ un_dwo_id u = sc_dwo_id sp /\
+  un_name u = match sc_name sp with Some v => opt_of_res (attr_string d u v) | None => None end /\
+  un_comp_dir u = match sc_comp_dir sp with Some v => opt_of_res (attr_string d u v) | None => None end /\
+  un_low_pc u = match sc_low_pc sp with
+                | Some v => match attr_address d u v with Ok (Some a) => a | _ => 0 end
+                | None => 0
+                end /\
+  match sc_stmt sp with
+  | None => un_line_program u = None
+  | Some off =>
+      exists p, line_program dbg d off (address_size (u_enc h)) (un_comp_dir u) (un_name u) = Ok p /\
+                un_line_program u = Some p
+  end.
+Proof. exact unit_of_root_fields. Qed.
+
+(* Unit::new fails (after the root was read) only through the chosen line program or the chosen low_pc index *)
+Theorem unit_new_errors : forall dbg d h tbl root e,
+  unit_of_root dbg d h tbl root = Err e ->
+  let sp := scan_spec d h (d_attrs root) in
+  (exists off cd nm, sc_stmt sp = Some off /\ line_program dbg d off (address_size (u_enc h)) cd nm = Err e) \/
+  (exists v u0, sc_low_pc sp = Some v /\ un_header u0 = h /\ un_addr_base u0 = sc_ab sp /\ attr_address d u0 v = Err e).
+Proof. exact unit_of_root_error. Qed.
+
+(* str_offsets_base_default: all versions x formats x file types. The implicit base is the size of the header of
+   a DWARF 5 string offsets table in the unit's format (8 / 16), in a DWARF 5 .dwo only; 0 otherwise. The lists
+   bases likewise (12 / 20). *)
+Theorem str_offsets_base_default : forall be f len v dwo,
+  default_str_offsets_base v f dwo = implicit_str_offsets_base v f dwo /\
+  implicit_str_offsets_base v f dwo = (if (5 <=? v) && dwo then nlen (str_offsets_header be f len) else 0) /\
+  ListsRd.default_lists_base v f dwo = implicit_lists_base v f dwo.
+Proof.
+  intros. split; [apply default_sob_implicit|]. split; [apply implicit_sob_header|apply default_lists_implicit].
+Qed.
+
+(* attr_string_resolves: each string form resolves to the NUL-terminated bytes at the designated position of the
+   designated section, or to the stated error: strp -> .debug_str, line_strp -> .debug_line_str, strp_sup -> the
+   supplementary .debug_str (ExpectedStringAttributeValue without one), strx* -> .debug_str at the offset stored in
+   entry i of .debug_str_offsets after the unit's base (C08 str_offset_table); anything else is not a string. *)
+Theorem attr_string_resolves : forall d u v,
+  N.of_nat (length (dw_str_offsets d)) < two64 ->
+  attr_string d u v =
+  match v with
+  | VString s => Ok s
+  | VDebugStrRef o => ok_or_eof (cstr_at (dw_str d) o)
+  | VDebugStrRefSup o =>
+      match dw_sup d with
+      | Some s => ok_or_eof (cstr_at s o)
+      | None => Err EExpectedStringAttributeValue
+      end
+  | VDebugLineStrRef o => ok_or_eof (cstr_at (dw_line_str d) o)
+  | VDebugStrOffsetsIndex i =>
+      match str_offset_table (dw_be d) (fmt64 (u_enc (un_header u))) (dw_str_offsets d)
+                             (un_str_offsets_base u) i with
+      | Some o => ok_or_eof (cstr_at (dw_str d) o)
+      | None => Err EUnexpectedEof
+      end
+  | _ => Err EExpectedStringAttributeValue
+  end.
+Proof. exact attr_string_spec. Qed.
+
+Theorem attr_line_string_resolves : forall d u v,
+  (forall i, v <> VDebugStrOffsetsIndex i) -> attr_line_string d v = attr_string d u v.
+Proof. exact attr_line_string_agrees. Qed.
+
+(* attr_address_resolves: Addr is itself; an index is entry i of .debug_addr after the unit's addr_base at the
+   unit's address size (C08 addr_table), UnexpectedEof outside the section; every other variant is None *)
+Theorem attr_address_resolves : forall d u v,
+  valid_asize (address_size (u_enc (un_header u))) = true -> N.of_nat (length (dw_addr d)) < two64 ->
+  attr_address d u v =
+  match v with
+  | VAddr a => Ok (Some a)
+  | VDebugAddrIndex i =>
+      match addr_table (dw_be d) (address_size (u_enc (un_header u))) (dw_addr d) (un_addr_base u) i with
+      | Some a => Ok (Some a)
+      | None => Err EUnexpectedEof
+      end
+  | _ => Ok None
+  end.
+Proof. exact attr_address_spec. Qed.
+
+(* make_dwo_inherits: exactly file type, .debug_addr, .debug_ranges and the supplementary file come from the
+   parent; every other section is untouched. copy_relocated_attributes: exactly low_pc, addr_base and — before
+   DWARF 5 only — rnglists_base come from the skeleton. *)
+Theorem make_dwo_inherits : forall self parent,
+  let r := make_dwo self parent in
+  dw_dwo r = true /\ dw_addr r = dw_addr parent /\ dw_ranges r = dw_ranges parent /\ dw_sup r = dw_sup parent /\
+  dw_be r = dw_be self /\ dw_abbrev r = dw_abbrev self /\ dw_aranges r = dw_aranges self /\
+  dw_info r = dw_info self /\ dw_line r = dw_line self /\ dw_line_str r = dw_line_str self /\
+  dw_macinfo r = dw_macinfo self /\ dw_macro r = dw_macro self /\ dw_names r = dw_names self /\
+  dw_str r = dw_str self /\ dw_str_offsets r = dw_str_offsets self /\ dw_types r = dw_types self /\
+  dw_loc r = dw_loc self /\ dw_loclists r = dw_loclists self /\ dw_rnglists r = dw_rnglists self.
+Proof. exact make_dwo_fields. Qed.
+
+Theorem copy_relocated_inherits : forall self other,
+  let r := copy_relocated_attributes self other in
+  un_low_pc r = un_low_pc other /\ un_addr_base r = un_addr_base other /\
+  un_rnglists_base r = (if version (u_enc (un_header self)) <? 5 then un_rnglists_base other
+                        else un_rnglists_base self) /\
+  un_header r = un_header self /\ un_abbrevs r = un_abbrevs self /\ un_name r = un_name self /\
+  un_comp_dir r = un_comp_dir self /\ un_str_offsets_base r = un_str_offsets_base self /\
+  un_loclists_base r = un_loclists_base self /\ un_line_program r = un_line_program self /\
+  un_dwo_id r = un_dwo_id self.
+Proof. exact copy_relocated_fields. Qed.
+
+(* after make_dwo + Unit::new + copy_relocated_attributes, range resolution of the split unit runs on the parent's
+   .debug_addr / .debug_ranges, the dwo's .debug_rnglists, and the skeleton's low_pc / addr_base (and its
+   ranges base before DWARF 5) *)
+Theorem split_unit_context : forall dbg dwo parent skeleton h d u,
+  load_dwo_unit dbg dwo parent skeleton h = Ok (d, u) ->
+  let x := uctx_of d u in
+  ListsRd.u_dwo x = true /\ ListsRd.u_debug_addr x = dw_addr parent /\
+  ListsRd.u_debug_ranges x = dw_ranges parent /\ ListsRd.u_debug_rnglists x = dw_rnglists dwo /\
+  ListsRd.u_low_pc x = un_low_pc skeleton /\ ListsRd.u_addr_base x = un_addr_base skeleton /\
+  (version (u_enc h) <? 5 = true -> ListsRd.u_rnglists_base x = un_rnglists_base skeleton).
+Proof. exact load_dwo_unit_context. Qed.
+
+(* unit_glue_no_panic: both build modes. From the root on: ANY root entry, ANY sections. From the header on: any
+   header whose size arithmetic is that of a parsed header (hypotheses; Example below), any sections. *)
+Theorem unit_glue_no_panic : forall dbg d h,
+  (forall tbl root, ListsRdProofs.good (unit_of_root dbg d h tbl root)) /\
+  (forall u v, ListsRdProofs.good (attr_string d u v) /\ ListsRdProofs.good (attr_address d u v)) /\
+  (forall off, header_size dbg h = Ok off -> off + nlen (u_entries h) < two63 ->
+     ListsRdProofs.good (unit_new dbg d h) /\
+     forall u, un_header u = h -> valid_asize (address_size (u_enc h)) = true ->
+               ListsRdProofs.good (unit_ranges_all dbg d u)).
+Proof.
+  intros dbg d h. split; [intros; apply unit_of_root_good|].
+  split; [intros; split; [apply attr_string_good|apply attr_address_good]|].
+  intros off Hs Hlt. split; [exact (unit_new_good dbg d h off Hs Hlt)|].
+  intros u Hu Hv. subst h. exact (unit_ranges_all_good dbg d u off Hs Hlt Hv).
+Qed.
+
+(* ---- examples: a DWARF 5 split unit in a .dwo. Root attributes, in this order: DW_AT_low_pc (addrx1 1),
+   DW_AT_name (strx1 1), DW_AT_addr_base (sec_offset 8), DW_AT_name again (string "z"), DW_AT_GNU_dwo_id (data1 9,
+   ignored: the header has the id), DW_AT_str_offsets_base given as data1 (wrong class: ignored). *)
+Definition ex_glue_abbrev : list byte :=
+  [x01; x11; x00;  x11; x29;  x03; x25;  x73; x17;  x03; x08;  xb1; x42; x0b;  x72; x0b;  x00; x00; x00]%byte.
+Definition ex_glue_info : list byte :=
+  [x1b; x00; x00; x00;  x05; x00;  x05; x04;  x00; x00; x00; x00;
+   x88; x77; x66; x55; x44; x33; x22; x11;
+   x01;  x01;  x01;  x08; x00; x00; x00;  x7a; x00;  x09;  x63]%byte.
+Definition ex_glue_dwarf : dwarf :=
+  mkDwarf false ex_glue_abbrev
+          [x00; x00; x00; x00; x00; x00; x00; x00;  x10; x00; x00; x00;  x20; x00; x00; x00]%byte   (* .debug_addr *)
+          [] ex_glue_info [] [] [] [] []
+          [x61; x00; x62; x63; x00]%byte                                                              (* "a" "bc" *)
+          [x0c; x00; x00; x00; x05; x00; x00; x00;  x00; x00; x00; x00;  x02; x00; x00; x00]%byte     (* v5 table *)
+          [] [] [] [] [] true None.
+
+Example ex_glue_unit :
+  match first_header ex_glue_dwarf false with
+  | Ok (Some h) =>
+      match unit_new true ex_glue_dwarf h with
+      | Ok u =>
+          header_size true h = Ok 20 /\ 20 + nlen (u_entries h) < two63 /\
+          (* the second DW_AT_name wins; low_pc (given FIRST) is entry 1 after the addr_base given later; the
+             implicit str_offsets_base of a v5 .dwo survives the data1 attribute; the header's id wins *)
+          un_name u = Some [x7a]%byte /\ un_low_pc u = 32 /\ un_addr_base u = 8 /\ un_str_offsets_base u = 8 /\
+          un_dwo_id u = Some 1234605616436508552 /\
+          attr_string ex_glue_dwarf u (VDebugStrOffsetsIndex 1) = Ok [x62; x63]%byte /\
+          attr_string ex_glue_dwarf u (VDebugStrRefSup 0) = Err EExpectedStringAttributeValue /\
+          attr_address ex_glue_dwarf u (VDebugAddrIndex 2) = Err EUnexpectedEof
+      | _ => False
+      end
+  | _ => False
+  end.
+Proof. vm_compute. repeat split; reflexivity. Qed.
+
+Example ex_glue_choice :
+  let attrs := [(mkSpec DW_AT_name 8 0%Z, VString [x61]%byte); (mkSpec DW_AT_addr_base 23 0%Z, VSecOffset 8);
+                (mkSpec DW_AT_GNU_addr_base 11 0%Z, VData1 3); (mkSpec DW_AT_name 8 0%Z, VString [x62]%byte);
+                (mkSpec DW_AT_GNU_dwo_id 7 0%Z, VData8 5); (mkSpec DW_AT_GNU_dwo_id 7 0%Z, VData8 6)] in
+  ch_name (choose attrs) = Some (VString [x62]%byte) /\ ch_addr_base (choose attrs) = Some 8 /\
+  ch_gnu_dwo_id (choose attrs) = Some 5.
+Proof. vm_compute. repeat split; reflexivity. Qed.
+
+Example ex_glue_split :
+  let parent := mkDwarf false [] [x01]%byte [] [] [] [] [] [] [] [] [] [] [] [] [x02]%byte [] false (Some [x03]%byte) in
+  let r := make_dwo ex_glue_dwarf parent in
+  dw_addr r = [x01]%byte /\ dw_ranges r = [x02]%byte /\ dw_sup r = Some [x03]%byte /\ dw_str r = dw_str ex_glue_dwarf.
+Proof. vm_compute. repeat split; reflexivity. Qed.
+
+Check unit_fields_of_root : forall (d : dwarf) (h : unit_header) (attrs : list rattr),
+  fold_left scan_step attrs (scan_init d h) = scan_spec d h attrs.
+Check unit_new_fields. Check unit_new_errors. Check str_offsets_base_default. Check attr_string_resolves.
+Check attr_line_string_resolves. Check attr_address_resolves. Check make_dwo_inherits. Check copy_relocated_inherits.
+Check split_unit_context. Check unit_glue_no_panic.
